@@ -88,6 +88,7 @@ type VC struct {
 	assumes   map[string]bool // assumptions used
 	inlined   map[string]bool
 	kindCount map[string]int
+	deadLocals map[string]Term // unconstrained stand-ins for locals not live at a clause (by name)
 	strConsts map[string]string
 	typeTags  map[string]int
 	entry     *State
